@@ -281,6 +281,16 @@ func (w *gwWorld) readObs(cl *s3c.Client, bucket, key, realVid string, r *s3c.Re
 	return o
 }
 
+// tagsOf: the tag-set id of a Tagging document ("-": no tag of the harness)
+func (w *gwWorld) tagsOf(body []byte) string {
+	for id := range w.sizes {
+		if id != "-" && bytes.Contains(body, []byte("<Value>"+id+"</Value>")) {
+			return id
+		}
+	}
+	return "-"
+}
+
 // Exec performs one step on the real gateway and returns the observed reply
 // in the vocabulary of the spec. ok=false: the operation is not known here.
 func (w *gwWorld) Exec(s gwStep) (map[string]any, bool) {
@@ -346,6 +356,44 @@ func (w *gwWorld) Exec(s gwStep) (map[string]any, bool) {
 		o := w.readObs(cl, b, k, rv, r)
 		if o["status"] == "ok" {
 			delete(o, "tags") // tags of a non-current version are not compared
+		}
+		return o, true
+	case "PutObjectTagging", "DeleteObjectTagging", "GetObjectTagging":
+		q := []s3c.KV{{K: "tagging"}}
+		if v := str(a, "vid"); v != "-" && v != "" {
+			q = append(q, s3c.KV{K: "versionId", V: w.realOf(v)})
+		}
+		path := "/" + b + "/" + s3c.EncPath(k)
+		switch s.Op {
+		case "PutObjectTagging":
+			body := []byte(`<Tagging xmlns="http://s3.amazonaws.com/doc/2006-03-01/"><TagSet><Tag><Key>cid</Key><Value>` + str(a, "tags") + `</Value></Tag></TagSet></Tagging>`)
+			return simple(cl.Do(s3c.Req{Method: "PUT", Path: path, Query: q, Body: body}), nil), true
+		case "DeleteObjectTagging":
+			r := cl.Do(s3c.Req{Method: "DELETE", Path: path, Query: q})
+			if r.Err == nil && r.Status < 300 {
+				return map[string]any{"status": "ok"}, true
+			}
+			return map[string]any{"status": errClass(r), "http": r.Status}, true
+		default:
+			r := cl.Do(s3c.Req{Method: "GET", Path: path, Query: q})
+			if !r.OK() {
+				if r.Code == "NoSuchTagSet" {
+					return map[string]any{"status": "ok", "tags": "-"}, true
+				}
+				return map[string]any{"status": errClass(r), "http": r.Status}, true
+			}
+			return map[string]any{"status": "ok", "tags": w.tagsOf(r.Body)}, true
+		}
+	case "HeadObject":
+		r := HeadObject(cl, b, k)
+		if !r.OK() {
+			return map[string]any{"status": errClass(r), "http": r.Status}, true
+		}
+		o := map[string]any{"status": "ok", "etag": w.etagContent(r.ETag()), "meta": r.Header.Get("X-Amz-Meta-Cid"),
+			"vid": w.symOf(r.Header.Get("X-Amz-Version-Id"))}
+		// the size reported by HEAD is the size of that content
+		if want, ok := w.sizes[str(o, "etag")]; ok && r.Header.Get("Content-Length") != fmt.Sprint(want) {
+			o["etag"] = "?size-of-other-content"
 		}
 		return o, true
 	case "DeleteObject":
@@ -617,6 +665,21 @@ func (w *gwWorld) CompareState(p gwPost, symBuckets []string, symKeys []string) 
 					}
 					if m := r.Header.Get("X-Amz-Meta-Cid"); m != e.Meta && e.Meta != "-" {
 						ds = append(ds, gwDiff{"version-meta", "value", classOfVs(m, e.Meta)})
+					}
+					// the tag set of the current version (the tagging API cannot address others)
+					if e.Vid != want[0].Vid {
+						continue
+					}
+					tr := cl.Do(s3c.Req{Method: "GET", Path: "/" + b + "/" + s3c.EncPath(k), Query: []s3c.KV{{K: "tagging"}}})
+					gt := "-"
+					switch {
+					case tr.OK():
+						gt = w.tagsOf(tr.Body)
+					case tr.Code != "NoSuchTagSet":
+						gt = "?" + errClass(tr)
+					}
+					if gt != e.Tags {
+						ds = append(ds, gwDiff{"version-tags", classOf(e.Tags), classOfVs(gt, e.Tags)})
 					}
 				}
 			}
